@@ -60,9 +60,11 @@ type bsim struct {
 	cliSite bool
 	// cliModDir[i]: directory of module i below the workspace root; cliInput: what is given to the
 	// command (the directory, or an archive with #subdir); cliFlagRoot: what --path values start with
-	cliModDir   []string
-	cliInput    string
-	cliFlagRoot string
+	cliModDir    []string
+	cliInputs    [2]string
+	cliFlagRoots [2]string
+	// cliVariant: which of the two copies of the workspace on disk the next command uses
+	cliVariant int
 	// withFormatDiff: this run also produces the `buf format -d` output
 	withFormatDiff bool
 	// withFormatBroken: this run also formats a tree with one unparsable file and compares the failure text
@@ -633,6 +635,7 @@ func Run(tp *tape.Tape, env *engine.Env) *engine.Outcome {
 			m.cliRoot = m.writeCLIWorkspace()
 			for k := 0; k < 2; k++ {
 				m.permuteLists = k == 1
+				m.cliVariant = k
 				s.Unhashed = true
 				image, _, err := m.cliBuild(context.Background(), m.cliRoot)
 				s.Unhashed = false
